@@ -250,6 +250,14 @@ def bb_scenarios(rng, tier):
           {"op": "load", "cfg": 1}, {"op": "load", "cfg": 1}, {"op": "load", "cfg": 0}, req(t + DUR["5m"], R)])
     scen("reload-auth-readded", "replay-after-readd", [cfg(), cfg(hooks="open")],
          [{"op": "load", "cfg": 0}, req(t, R), {"op": "load", "cfg": 1}, req(t + 2, R), {"op": "load", "cfg": 0}, req(t + 3, R)])
+    # the route stays without its HMAC authentication (or absent) through SEVERAL reloads before it comes back: what it remembered comes back with it
+    for k, (away, n_away) in enumerate((("open", 2), ("open", 3), ("none", 2), ("none", 4))):
+        steps = [{"op": "load", "cfg": 0}, req(t, R)]
+        for i in range(n_away):
+            steps.append({"op": "load", "cfg": 1 if i % 2 == 0 else 2})
+            steps.append(req(t + 1 + i, R))
+        steps += [{"op": "load", "cfg": 0}, req(t + 10, R), req(t + 11, bb_request(ts, "rl-away-%d" % k))]
+        scen("reload-auth-away-%s-for-%d-reloads" % (away, n_away), "replay-after-readd", [cfg(), cfg(hooks=away), cfg(hooks=away, secrets=("raw:k1", "raw:kz"))], steps)
     scen("reload-readd-tolerance-shrunk", "replay-after-readd", [cfg("5m"), cfg(hooks="none"), cfg("2s")],
          [{"op": "load", "cfg": 0}, req(t, R), {"op": "load", "cfg": 1}, {"op": "load", "cfg": 2}, req(t + 2 * SEC, R)])
     # 2c. a reload that completes while a request is IN FLIGHT (after the handler fetched the route's authenticator, before that
